@@ -1,85 +1,29 @@
 /-
   C07 — any well-formed third-party disk image is listed and extracted exactly.
-  (first layer: side counts of `load`, chain following on any linked table)
+  (chain following, size formula, side counts of `load`, the efficient reader: Proofs/DiskReadProps.lean, same namespace)
 -/
-import MotoModel.Proofs.DiskChain
-import MotoModel.Proofs.DiskFill
-import MotoModel.Props.C11
-import MotoModel.Spec.Dos
+import MotoModel.Proofs.DiskReadProps
+import MotoModel.Proofs.DiskByte0
 namespace Moto.C07
 open Moto Moto.Disk
 
-/-- **C07 (chains)**: whatever the allocation order — any duplicate-free list of blocks below 160
-    linked in the table, ending in a last-block marker C1..C8 — the reader follows exactly that
-    chain, from the first block recorded in the catalog. -/
-theorem chain_followed (bat : List Nat) (chain : List Nat) (u : Nat) (hlen : bat.length = 160)
-    (hne : chain ≠ []) (hnd : chain.Nodup) (hlt : ∀ b ∈ chain, b < 160) (h1 : 1 ≤ u) (h8 : u ≤ 8)
-    (hl : Linked bat chain u) : walk bat (chain.getD 0 0) = .ok chain := by
-  obtain ⟨first, rest, rfl⟩ := List.exists_cons_of_ne_nil hne
-  simp only [List.getD_cons_zero]
-  exact walk_linked bat first rest u h1 h8 hlen hl hlt hnd
-
-/-- the table an independent writer produces for one file links its chain (fragmented or not) -/
-theorem writer_links (bat : List Nat) (chain : List Nat) (u : Nat) (hnd : chain.Nodup) (hlt : ∀ b ∈ chain, b < bat.length) :
-    Linked (linkChain bat chain u) chain u := linkChain_linked chain bat u hnd hlt
-
-/-- chains of other files are not disturbed by linking a disjoint chain -/
-theorem other_chain_kept (bat : List Nat) (c1 c2 : List Nat) (u1 u2 : Nat) (hd : ∀ b ∈ c2, b ∉ c1) (hl : Linked bat c2 u2) :
-    Linked (linkChain bat c1 u1) c2 u2 :=
-  linked_of_other bat _ c2 u2 (fun x hx => linkChain_other c1 bat u1 x 0 (hd x hx)) hl
-
-/-- the size the reader announces: 255 bytes per full sector plus the bytes of the last one -/
-theorem size_formula (bat : List Nat) (rec16 : Bytes) (chain : List Nat) (last : Nat) (u : Nat) (h8 : u ≤ 8)
-    (hlast : chain.getLast? = some last) (hs : bat.getD last 0 = 0xC0 + u) :
-    sizeInBytes bat ⟨1, rec16, chain⟩ = (8 * (chain.length - 1) + u - 1) * 255 + (rec16.getD 14 0 * 256 + rec16.getD 15 0) := by
-  unfold sizeInBytes
-  simp only [hlast, hs, Entry.lastBytes]
-  have : usageOf (0xC0 + u) = u := by
-    unfold usageOf
-    have := marker_not_free u h8
-    simp only [this.1, this.2, Bool.false_eq_true, if_false, Bool.false_or]
-    have hn : hasNext (0xC0 + u) = false := by
-      unfold hasNext; have : Gen.Disk.bsMaxNext = 160 := rfl; rw [this]; simp; omega
-    simp only [hn, Bool.false_eq_true, if_false]
-    have : Gen.Disk.bsLastBlock = 192 := rfl
-    rw [this]; omega
-  rw [this]
-
-/-! ### side counts -/
-
-theorem load_fd_sides (raw : Bytes) (n : Nat) (hn : n = 1 ∨ n = 2 ∨ n = 4) (hlen : raw.length = 327680 * n) :
-    ∃ img, load .fd raw = .ok img ∧ img.length = n := by
-  unfold load
-  have hs : sizeOfSide .fd = 327680 := rfl
-  have hne : ¬ (raw.length = 0) := by rcases hn with h | h | h <;> omega
-  have hdiv : raw.length / 327680 = n := by rw [hlen]; simp
-  have hmin : min n 4 = n := by rcases hn with h | h | h <;> omega
-  simp only [hne, if_false, hs, hdiv, hmin]
-  have hbad : (n == 0 || n == 3) = false := by rcases hn with h | h | h <;> subst h <;> rfl
-  have hint : ¬ (n < 4 ∧ n * 327680 < raw.length) := by rw [Nat.mul_comm]; omega
-  simp only [hbad, Bool.false_eq_true, if_false, hint]
-  exact ⟨_, rfl, by simp⟩
-
-theorem load_sd_sides (raw : Bytes) (hlen : raw.length = 655360 * 4) :
-    ∃ img, load .sd raw = .ok img ∧ img.length = 4 := by
-  unfold load
-  have hs : sizeOfSide .sd = 655360 := rfl
-  have hne : ¬ (raw.length = 0) := by omega
-  have hdiv : raw.length / 655360 = 4 := by rw [hlen]
-  simp only [hne, if_false, hs, hdiv]
-  exact ⟨_, rfl, by simp⟩
-
-theorem load_fd_three_sides_rejected (raw : Bytes) (hlen : raw.length = 327680 * 3) : load .fd raw = .error (.valueError "sides") := by
-  unfold load
-  have hs : sizeOfSide .fd = 327680 := rfl
-  have hne : ¬ (raw.length = 0) := by omega
-  have hdiv : raw.length / 327680 = 3 := by rw [hlen]
-  simp [hne, hs, hdiv]
-
-/-- **C07 (the extractor's reader)**: the efficient reader the model's extractor runs is, for every
-    side, table and entry (well-formed or not), the reader that mirrors controller.readFile's
-    slice-assignment loop. -/
-theorem reader_impl_is_reader (sd : Side) (bat : List Nat) (e : Entry) : readFileImpl sd bat e = readFile sd bat e :=
-  readFileImpl_eq sd bat e
+/-- **C07 (any well-formed image is extracted exactly)**: for every four-sided image whose sides
+    are consistent file systems — whoever wrote them, whatever the allocation order and
+    fragmentation, with deleted and never-used entries anywhere — and whose live entries have
+    ordinary names, `--extract` returns 0 and writes, for every side, exactly the files the
+    independent decoder `Spec.Dos.files` finds there, in catalog order, each with the content the
+    decoder assigns to its chain. -/
+theorem wellformed_image_extracted_exactly (fl : Flavour) (verbose : Bool) (archive : Str) (into : Option Str) (img : Image)
+    (h : ImgOk img) (hn : ∀ k, k < 4 → NiceSide (img.getD k [])) :
+    (extract fl verbose archive into (save fl img)).status = .ret 0
+    ∧ (extract fl verbose archive into (save fl img)).writes = sidesFiles (Tape.targetDirOf archive into) img 0
+    ∧ ∀ k, k < 4 → ∀ dir, ∃ fs, Spec.Dos.files (img.getD k []) = some fs
+        ∧ sideFiles (img.getD k []) dir
+            = fs.map (fun f => (pathJoin dir (fileNameOf ⟨1, recordOfBytes (slotData (img.getD k []) f.slot), []⟩), f.content)) := by
+  obtain ⟨h1, h2⟩ := extract_consistent fl verbose archive into img h hn
+  refine ⟨h1, h2, ?_⟩
+  intro k hk dir
+  obtain ⟨bat, own, inv⟩ := h.2 k hk
+  exact ⟨_, spec_files_inv inv, sideFiles_eq_spec inv dir⟩
 
 end Moto.C07
